@@ -28,7 +28,11 @@ func (t *T) f(v int) int {
 		return 0
 	}
 	t.mu.Lock()
-	t.ch <- 1 // inside the critical section: untouched
+	t.ch <- 1 // inside the critical section, can block: a scheduling point
+	select { // cannot block: stays native
+	case t.ch <- 5:
+	default:
+	}
 	t.mu.Unlock()
 	t.ch <- v
 	x, ok := <-t.ch
@@ -73,7 +77,7 @@ func TestInstrument(t *testing.T) {
 		t.Fatalf("does not parse: %v\n%s", err, s)
 	}
 	for _, want := range []string{
-		`vsched.Yield("atomic")`, `vsched.Yield("lock")`, `t.mu.TryLock()`, "t.ch <- 1",
+		`vsched.Yield("atomic")`, `vsched.Yield("lock")`, `t.mu.TryLock()`, "vsched.Send(t.ch, 1)", "case t.ch <- 5:",
 		"vsched.Send(t.ch, v)", "vsched.Recv2(t.ch)", "vsched.Go(func()", "vsched.WgWait(t.wg.Wait, t.wg.Done)",
 		"vsched.NewSelect(false)", "vsched.RecvCase(", "vsched.SendCase(", "vsched.Recv(t.stop)",
 		"vsched.SortedKeys(t.m)", `vsched.Yield("wg")`, "break L",
